@@ -277,6 +277,14 @@ def run_case(case) -> Outcome:
             return out
         x1, x2 = r.double().numpy() * t, r2.double().numpy()
         amp = float(m)
+        if name == "Constant":
+            amp *= max(1.0, float(np.abs(np.array(spec["weights"])).max()))
+        if name == "CAGrad":
+            from vlib import relations as rel
+
+            if rel.domain_exclusion(spec, dtype, J) == "cagrad-stationarity-decision-ambiguous":
+                out.excluded = "cagrad-stationarity-decision-ambiguous"
+                return out
         if name in ("UPGrad", "DualProj"):
             amp = m / np.sqrt(spec["reg_eps"])
             w = A.weighting(Jt).double().numpy()
